@@ -127,6 +127,17 @@ pub(crate) fn add_record(reloader: &HotReloader, id: SharedString, type_id: Type
     });
 }
 
+pub(crate) fn add_records(reloader: &HotReloader, deps: &Dependencies) {
+    RECORDING.with(|rec| {
+        if let Some(mut recorder) = rec.get() {
+            let recorder = unsafe { recorder.as_mut() };
+            if recorder.reloader == reloader {
+                recorder.records.0.extend(deps.iter().cloned());
+            }
+        }
+    });
+}
+
 pub(crate) fn add_file_record(reloader: &HotReloader, id: &str, ext: &str) {
     RECORDING.with(|rec| {
         if let Some(mut recorder) = rec.get() {
